@@ -106,15 +106,20 @@ Qed.
    the rules, every recorded position the rule successor of its predecessor, every recorded flag the rule's *)
 Theorem import_sound t g tag : from_pgn_text K t = Ok (g, tag) ->
   exists g0 acts, default_game K = Ok g0 /\ Forall wf_action acts /\ g = run K g0 acts /\
-                  LC.proofs.C13Flags.RuleChain K (g_positions g) (g_moves g) (g_meta g) /\ GameGood K g.
+                  LC.proofs.C13Flags.RuleChain K (g_positions g) (g_moves g) (g_meta g) /\ GameGood K g /\
+                  g_tag g = tag_of_status (g_status g) /\
+                  (g_status g <> GOngoing -> tag = print_rtag (tag_of_status (g_status g))).
 Proof.
   unfold from_pgn_text. destruct default_ok as (b0 & g0 & Eb & G0 & Eg & Ed & _). rewrite Ed. cbn [bind].
-  destruct (moves_part t) as [body|]; [|discriminate]. intros E. apply bind_ok in E. destruct E as (g1 & E1 & E). injection E as <- _.
+  destruct (moves_part t) as [body|]; [|discriminate]. intros E. apply bind_ok in E. destruct E as (g1 & E1 & E). injection E as <- Et.
   pose proof (GameGood_init K b0 g0 G0 Eg) as GG0.
   destruct (tokens_are_actions g0 _ _ g1 GG0 E1) as (acts & Wa & Ra).
-  exists g0, acts. split; [reflexivity|]. split; [exact Wa|]. split; [symmetry; exact Ra|]. rewrite <- Ra. split.
-  - exact (LC.proofs.C13Flags.history_is_rule_game K b0 g0 acts G0 Eg Wa).
-  - apply run_never_panics; assumption.
+  assert (T : TagInv g1) by (rewrite <- Ra; apply run_tag; exact (proj1 (game_from_board_spec b0 g0 Eg))).
+  exists g0, acts. split; [reflexivity|]. split; [exact Wa|]. split; [symmetry; exact Ra|]. split; [|split; [|split]].
+  - rewrite <- Ra. exact (LC.proofs.C13Flags.history_is_rule_game K b0 g0 acts G0 Eg Wa).
+  - rewrite <- Ra. apply run_never_panics; assumption.
+  - exact T.
+  - intros N. rewrite <- Et. unfold TagInv in T. rewrite <- T. destruct (g_status g1); try reflexivity. contradiction.
 Qed.
 
 (* C13: the rendered move list of every game (either side moving first) consists of separately delimited tokens *)
